@@ -306,6 +306,8 @@ type boxKernel struct {
 	Events    []string
 	// ListOrderRand drives the order of List results.
 	listRand *vfRand
+	// OnDone is called when a reconcile returned (not when it was killed by a crash).
+	OnDone func(rec string, req ctrl.Request, err error)
 	// OnCrash is called at the crash instant, before the new instance boots.
 	OnCrash func()
 	// PointLabels records the label of every crash point (dry runs use it to pick crash indices).
@@ -332,6 +334,14 @@ func newBoxKernel(c *vfCase, schedSeed uint64) *boxKernel {
 func (k *boxKernel) AddReconciler(name string, fn func(context.Context, ctrl.Request) (ctrl.Result, error)) {
 	k.recs[name] = &boxRec{name: name, reconcile: fn, q: newBoxQueue(), resume: make(chan bool)}
 	k.order = append(k.order, name)
+}
+
+// Current returns the request the reconciler is working on (valid inside its handler).
+func (k *boxKernel) Current(rec string) ctrl.Request {
+	if r := k.recs[rec]; r != nil {
+		return r.cur
+	}
+	return ctrl.Request{}
 }
 
 func (k *boxKernel) Enqueue(rec string, req ctrl.Request) {
@@ -445,6 +455,9 @@ func (k *boxKernel) wait() {
 		r.q.Done(r.cur)
 		if m.err != nil {
 			r.retries = append(r.retries, r.cur)
+		}
+		if k.OnDone != nil {
+			k.OnDone(r.name, r.cur, m.err)
 		}
 	}
 	if k.AfterStep != nil {
